@@ -40,6 +40,7 @@ def run(p: Project, tier: str) -> Result:
     r.rule('C17.R4', 'Machine.update_state_rep: each documented state group is a partition of (processing, blocked) ∈ ℕ²; every bucket gets exactly `elapsed`', 2)
     r.rule('C17.R5', 'update_final_state_time credits the last interval exactly once', 5)
     r.rule('C17.R6', 'worker occupancy: accumulate into bucket[num_workers] before num_workers changes', 3)
+    r.rule('C17.R7', 'every change of a worker thread_state / of the worker list is followed by a recomputation of the state classification before the next suspension', 15)
     r.not_decided = ['that the time charged to processing / blocked / idle equals the time actually spent so (needs the schedule)',
                      'floating-point exactness of the sums']
     nodes = tables.node_classes(p)
@@ -58,7 +59,68 @@ def run(p: Project, tier: str) -> Result:
         check_final(p, w, r)
         check_occupancy(p, w, r)
     check_machine_groups(p, r)
+    for w in ws:
+        check_thread_state_pairing(w, r)
     return r
+
+
+REFRESH = ('update_state_rep', 'check_thread_state_and_update_splitter_state', 'check_thread_state_and_update_combiner_state')
+
+
+def check_thread_state_pairing(w, r):
+    """R7: the per-state totals are driven by a *stored* classification (state_rep / state) that is recomputed from the workers'
+    thread_state by update_state_rep / check_thread_state_and_update_*.  Every change of what that classification counts - a worker's
+    thread_state, membership of worker_thread_list - must therefore be followed by a recomputation before the process suspends or ends;
+    otherwise the whole following wait is charged to the previous state."""
+    if not any(m in w.methods for m in REFRESH):
+        return
+    sites = {}
+    for root, ps in w.roots.items():
+        for pa in ps:
+            if pa.raises or pa.status == 'loopcut':
+                continue
+            pending = []
+            for e in pa.events:
+                changed = None
+                if e.kind == 'setattr' and e.attr == 'thread_state':
+                    changed = f'{e.target} = {e.value[1] if e.value and e.value[0] == "const" else "…"}'
+                elif e.kind == 'xcall' and e.name in ('self.worker_thread_list.append', 'self.worker_thread_list.remove'):
+                    changed = e.name
+                if changed is not None:
+                    pending.append((e, changed))
+                    key = ts_key(e, changed)
+                    sites.setdefault(key, {'ok': True, 'e': e, 'pa': pa, 'what': changed})
+                elif e.kind == 'call' and e.name in REFRESH:
+                    pending = []
+                elif e.kind == 'yield':
+                    flush(pending, sites, pa, f'the process suspends on `{e.text}` (line {e.line})')
+                    pending = []
+            flush(pending, sites, pa, 'the process ends / loops back')
+    for key, rec in sorted(sites.items()):
+        e = rec['e']
+        r.analysed_functions.add(e.fi.key)
+        if rec['ok']:
+            r.ok('C17.R7', key, 'classification recomputed before the next suspension on every path', src(e.fi.module), e.line)
+        else:
+            r.fail('C17.R7', key, rec['why'], src(e.fi.module), e.line, rec['pa'].describe())
+
+
+def ts_key(e, changed):
+    n = e.d.get('node')
+    if n is None:
+        return f'{e.fi.key}::thread-state-change@{changed}'
+    if isinstance(n, ast.Assign):
+        return site(e.fi, n, 'thread_state-assignment', same=lambda x: isinstance(x, ast.Assign) and any(isinstance(t, ast.Attribute) and t.attr == 'thread_state' for t in x.targets))
+    return site(e.fi, n, 'worker-list-change')
+
+
+def flush(pending, sites, pa, where):
+    for e, changed in pending:
+        key = ts_key(e, changed)
+        rec = sites[key]
+        if rec['ok']:
+            rec.update(ok=False, pa=pa, why=f'`{changed}` changes what the state classification counts, but no update_state_rep / check_thread_state_and_update_* '
+                                            f'runs before {where}: the time that follows is charged to the previous (e.g. processing instead of blocked) state')
 
 
 def check_update_state(fi, r):
